@@ -13,7 +13,7 @@ def sweep(vdrive):
     skip, events = [], []
     for _ in range(20):
         args = [vdrive, "c04arity", "0", "1"] + ([",".join(skip)] if skip else [])
-        p = subprocess.run(args, stdin=subprocess.DEVNULL, capture_output=True, timeout=600)
+        p = subprocess.run(args, stdin=subprocess.DEVNULL, capture_output=True, cwd=common.scratch(), timeout=600)   # the sweep calls (snapshot "abc") ...: files land in the scratch directory
         events = [json.loads(l) for l in p.stdout.decode().splitlines() if l.startswith("{")]
         if p.returncode == 0:
             return events, skip
